@@ -169,3 +169,39 @@ control_intersection(const control_seg_t *a, const control_seg_t *b, control_seg
     out->left = TSK_MIN(a->left, b->left);
     out->right = TSK_MIN(a->right, b->right);
 }
+
+/* validate-all: a NULL entry ends the validation of the list (bad) / is skipped (good) */
+int
+control_validate_break(const tsk_id_t *parents, tsk_size_t n, tsk_size_t num_rows)
+{
+    int ret = 0;
+    tsk_size_t k;
+    for (k = 0; k < n; k++) {
+        if (parents[k] == TSK_NULL) {
+            break;
+        }
+        if (parents[k] < 0 || parents[k] >= (tsk_id_t) num_rows) {
+            ret = tsk_trace_error(-1);
+            goto out;
+        }
+    }
+out:
+    return ret;
+}
+
+int
+control_validate_all(const tsk_id_t *parents, tsk_size_t n, tsk_size_t num_rows)
+{
+    int ret = 0;
+    tsk_size_t k;
+    for (k = 0; k < n; k++) {
+        if (parents[k] != TSK_NULL) {
+            if (parents[k] < 0 || parents[k] >= (tsk_id_t) num_rows) {
+                ret = tsk_trace_error(-1);
+                goto out;
+            }
+        }
+    }
+out:
+    return ret;
+}
